@@ -533,6 +533,28 @@ pub(crate) struct CachedIterativeQuery {
     request_type: RequestTypeSpecific,
 }
 
+#[cfg(mainline_verif)]
+impl CachedIterativeQuery {
+    /// (request kind, dht_size_estimate, responders_dht_size_estimate, subnets, closest responding nodes)
+    pub fn verif_view(&self) -> (u8, f64, f64, u8, usize) {
+        let kind = match self.request_type {
+            RequestTypeSpecific::Ping => 0,
+            RequestTypeSpecific::FindNode(_) => 1,
+            RequestTypeSpecific::GetPeers(_) => 2,
+            RequestTypeSpecific::GetSignedPeers(_) => 3,
+            RequestTypeSpecific::GetValue(_) => 4,
+            RequestTypeSpecific::Put(_) => 5,
+        };
+        (
+            kind,
+            self.dht_size_estimate,
+            self.responders_dht_size_estimate,
+            self.subnets,
+            self.closest_responding_nodes.len(),
+        )
+    }
+}
+
 #[derive(Debug, Clone)]
 pub enum Response {
     Peers(Vec<SocketAddrV4>),
